@@ -156,6 +156,33 @@ func checkJSONKeys(c *Ctx, ev *tmpl.Evaluator, gen *packages.Package) {
 			return true
 		})
 		c.Check(first == "g.OriginalName", rule, "generator.GenSchema.renderMarshalTag › name", c.posOf(gen, fd.Pos()), "g.OriginalName", "the json tag of struct fields starts with "+first+" instead of the property's JSON name")
+		// the tag `json:"-"` skips the field: a property whose JSON name is "-" is written `-,`
+		dash := false
+		ast.Inspect(fd.Body, func(nd ast.Node) bool {
+			ifs, ok := nd.(*ast.IfStmt)
+			if !ok || len(ifs.Body.List) == 0 {
+				return true
+			}
+			be, ok := ast.Unparen(ifs.Cond).(*ast.BinaryExpr)
+			if !ok || be.Op != token.EQL {
+				return true
+			}
+			lit, ok := goan.StringVal(info, be.Y)
+			if !ok {
+				lit, ok = goan.StringVal(info, be.X)
+			}
+			if !ok || lit != "-" {
+				return true
+			}
+			if rs, ok := ifs.Body.List[len(ifs.Body.List)-1].(*ast.ReturnStmt); ok && len(rs.Results) == 1 {
+				if v, ok := goan.StringVal(info, rs.Results[0]); ok && strings.HasPrefix(v, "-,") {
+					dash = true
+				}
+			}
+			return true
+		})
+		c.Check(dash, rule, "generator.GenSchema.renderMarshalTag › a property named \"-\" is tagged `-,`", c.posOf(gen, fd.Pos()), "the bare tag \"-\" is rewritten",
+			"a property whose JSON name is \"-\" (and that is required, so that no option follows the name) gets the tag `json:\"-\"`, which tells encoding/json to skip the field: the property is neither read nor written, and a document that holds it does not round-trip")
 		// omitempty condition
 		rule2 := "C05.R1.omitempty"
 		c.Rule(rule2, "`,omitempty` is written only for properties that are not required and whose zero value may be omitted; Required is the schema's own required-ness", 12)
